@@ -25,7 +25,7 @@ impl<const CAP: usize> TombstoneSet<u8> for CapSet<u8, CAP> {
         let old = self.len;
         let mut i = 0;
         while i < other.len {
-            self.put(other.items[i].unwrap());
+            self.put(other.items[i]);
             i += 1;
         }
         old
@@ -80,7 +80,7 @@ fn mset_of<const CAP: usize>(s: &CapSet<u8, CAP>) -> MSet<MS> {
     let mut m = MSet::empty();
     let mut i = 0;
     while i < s.len {
-        m.add(s.items[i].unwrap());
+        m.add(s.items[i]);
         i += 1;
     }
     m
@@ -101,13 +101,13 @@ pub fn tss_of(n: usize, m: usize) -> Tss {
     while i < n + m {
         let x: u8 = any();
         assume(!all.has(&x));
-        all.items[i] = Some(x);
+        all.items[i] = x;
         all.len = i + 1;
         if i < n {
-            live.items[i] = Some(x);
+            live.items[i] = x;
             live.len = i + 1;
         } else {
-            tomb.items[i - n] = Some(x);
+            tomb.items[i - n] = x;
             tomb.len = i - n + 1;
         }
         i += 1;
@@ -121,7 +121,7 @@ pub fn tss_overlap(n: usize, m: usize, o: usize) -> Tss {
     let mut t = tss_of(n, m);
     let mut i = 0;
     while i < o {
-        let x = t.as_reveal_ref().0.items[i].unwrap();
+        let x = t.as_reveal_ref().0.items[i];
         t.as_reveal_mut().1.put(x);
         i += 1;
     }
@@ -252,7 +252,7 @@ pub fn tms_of(live: &[(u8, WbC)], tomb: &[u8]) -> Tms {
     let mut t = Tk::default();
     let mut j = 0;
     while j < tomb.len() {
-        t.items[j] = Some(tomb[j]);
+        t.items[j] = tomb[j];
         t.len = j + 1;
         j += 1;
     }
